@@ -622,12 +622,29 @@ static char c_ini_free (char **av) { int d = ai (av, 1); LIB (); NEED (d, T_INI)
 
 /* --- crypto hash, IPC key */
 static char c_hash_new (char **av) { int d = ai (av, 1), t = ai (av, 2); LIB (); EMPTY (d); if (t < 0 || t > 10) return '-';
-	PCryptoHash *r = p_crypto_hash_new ((PCryptoHashType) t); if (!r) return 'F'; put (d, T_HASH, r); return 'S'; }
+	PCryptoHash *r = p_crypto_hash_new ((PCryptoHashType) t); if (!r) return 'F'; put (d, T_HASH, r); S[d].a = t; return 'S'; }
+static const puchar hash_data[100] = "The quick brown fox jumps over the lazy dog";
 static char c_hash_update (char **av) { int d = ai (av, 1); LIB (); NEED (d, T_HASH);
-	static const puchar data[100] = "The quick brown fox jumps over the lazy dog"; p_crypto_hash_update (S[d].p, data, sizeof data); return 'S'; }
+	p_crypto_hash_update (S[d].p, hash_data, sizeof hash_data); if (!S[d].c) S[d].b++; return 'S'; }
 static char c_hash_string (char **av) { int s = ai (av, 1), d = ai (av, 2); LIB (); NEED (s, T_HASH); EMPTY (d);
+	S[s].c = 1;                   /* a read (also one that fails for lack of memory) ends the message */
 	pchar *r = p_crypto_hash_get_string (S[s].p); if (!r) return 'F'; put (d, T_STR, r); return 'S'; }
-static char c_hash_reset (char **av) { int d = ai (av, 1); LIB (); NEED (d, T_HASH); p_crypto_hash_reset (S[d].p); return 'S'; }
+static char c_hash_reset (char **av) { int d = ai (av, 1); LIB (); NEED (d, T_HASH); p_crypto_hash_reset (S[d].p); S[d].b = 0; S[d].c = 0; return 'S'; }
+/* "objects that existed before the call remain valid and unchanged": the digest of the object (read into a caller's
+ * buffer, no allocation) is that of the bytes it absorbed before its first read, whatever failed in between.
+ * The reference object is made with the tracker and the fault injection switched off. */
+static char c_hash_check (char **av) { int d = ai (av, 1); LIB (); NEED (d, T_HASH);
+	puchar got[64], want[64]; psize gl = sizeof got, wl = sizeof want;
+	int on = a_on; a_on = 0;
+	PCryptoHash *ref = p_crypto_hash_new ((PCryptoHashType) S[d].a);
+	if (!ref) { a_on = on; return '-'; }
+	for (long i = 0; i < S[d].b; i++) p_crypto_hash_update (ref, hash_data, sizeof hash_data);
+	p_crypto_hash_get_digest (ref, want, &wl);
+	p_crypto_hash_free (ref);
+	a_on = on;
+	S[d].c = 1;
+	p_crypto_hash_get_digest (S[d].p, got, &gl);
+	return (gl == wl && gl > 0 && !memcmp (got, want, gl)) ? 'S' : 'X'; }
 static char c_hash_free (char **av) { int d = ai (av, 1); LIB (); NEED (d, T_HASH); p_crypto_hash_free (S[d].p); clr (d); return 'S'; }
 static char c_ipc_key (char **av) { int d = ai (av, 1), posix = ai (av, 2); LIB (); EMPTY (d);
 	pchar *r = p_ipc_get_platform_key ("some-ipc-name", posix ? TRUE : FALSE); if (!r) return 'F'; put (d, T_STR, r); return 'S'; }
@@ -905,7 +922,7 @@ static const struct { const char *name; char (*fn) (char **); } CALLS[] = {
 	{ "err_set_message", c_err_set_message }, { "err_clear", c_err_clear }, { "err_free", c_err_free }, { "err_set_p", c_err_set_p },
 	{ "ini_new", c_ini_new }, { "ini_parse", c_ini_parse }, { "ini_sections", c_ini_sections }, { "ini_keys", c_ini_keys }, { "ini_string", c_ini_string },
 	{ "ini_int", c_ini_int }, { "ini_double", c_ini_double }, { "ini_bool", c_ini_bool }, { "ini_list", c_ini_list }, { "ini_free", c_ini_free },
-	{ "hash_new", c_hash_new }, { "hash_update", c_hash_update }, { "hash_string", c_hash_string }, { "hash_reset", c_hash_reset }, { "hash_free", c_hash_free },
+	{ "hash_new", c_hash_new }, { "hash_update", c_hash_update }, { "hash_string", c_hash_string }, { "hash_reset", c_hash_reset }, { "hash_check", c_hash_check }, { "hash_free", c_hash_free },
 	{ "ipc_key", c_ipc_key }, { "ipc_tmpdir", c_ipc_tmpdir },
 	{ "dir_new", c_dir_new }, { "dir_next", c_dir_next }, { "dir_path", c_dir_path }, { "dir_rewind", c_dir_rewind }, { "dirent_free", c_dirent_free },
 	{ "dir_free", c_dir_free }, { "file_remove_missing", c_file_remove_missing },
@@ -965,7 +982,7 @@ static void c (const char *line) {
 static void run_lines (const char *const *l) { for (; *l; l++) c (*l); }
 #define SCEN(n, ...) static void scen_##n (void) { static const char *const L[] = { __VA_ARGS__, NULL }; run_lines (L); }
 #define STD(n, ...) SCEN (n, "lib_init", __VA_ARGS__, "lib_shutdown")
-#define HASH(n, t) STD (n, "hash_new 0 " #t, "hash_update 0", "hash_string 0 1", "hash_reset 0", "hash_update 0", "hash_string 0 2", "str_free 1", "str_free 2", "hash_free 0")
+#define HASH(n, t) STD (n, "hash_new 0 " #t, "hash_update 0", "hash_string 0 1", "hash_check 0", "hash_reset 0", "hash_update 0", "hash_update 0", "hash_string 0 2", "hash_string 0 3", "hash_check 0", "str_free 1", "str_free 2", "str_free 3", "hash_free 0")
 
 SCEN (init_only, "lib_init", "lib_shutdown", "lib_init", "lib_shutdown")
 STD (str_dup, "strdup 0", "strtok 0", "str_free 0")
